@@ -29,7 +29,19 @@ Pool == <<
   "(trace! (let [e 1] (try (throw 2) (catch e (+ e %T)) (finally (trace! e)))))",
   "(def x%T 1) (def x%T (+ x%T 1)) (trace! (let [x%T 10] (def y%T x%T) x%T)) (trace! x%T)",
   "(trace! (let [fu (future (+ 1 %T)) q 2 r (+ q 1) s (list q r)] (list @fu q r s)))",
-  "(def fu%T (future (reduce + 0 [1 2 3 %T]))) (trace! (let [w @fu%T] (list w @fu%T)))" >>
+  "(def fu%T (future (reduce + 0 [1 2 3 %T]))) (trace! (let [w @fu%T] (list w @fu%T)))",
+  \* programs that only READ shared globals (defined before the concurrent phase, read from text so that their
+  \* sequences are the reader's own) and derive new values from them
+  "(trace! (concat sv [%T])) (trace! (concat sl (list %T))) (trace! sv)",
+  "(trace! (conj sv %T)) (trace! (cons %T sl)) (trace! (conj sl %T))",
+  "(trace! `(~@sv ~(+ 0 %T))) (trace! `[~@sl %T]) (trace! `(~@sr %T))",
+  "(trace! (assoc sm :k %T)) (trace! (dissoc sm :a)) (trace! (merge sm {:a %T})) (trace! sm)",
+  "(trace! (apply list %T sv)) (trace! (map (fn [q] (+ q %T)) sr)) (trace! (concat sr [%T]))",
+  "(trace! (let [w (concat sv [%T %T])] (list (count w) (nth w 3) w)))",
+  \* ... and look at the derived value again a little later
+  "(let [w (concat sv [%T]) u (conj sv %T) q `(~@sv %T)] (sleep 3) (trace! (list w u q sv)))",
+  "(let [w (concat sl [%T]) u (conj sl %T) k (assoc sm :k %T)] (sleep 3) (trace! (list w u k sl sm)))" >>
+SharedText == "(def sv [1 2 3]) (def sl '(10 20 30)) (def sm {:a 1 :b 2}) (def sr (rest [0 1 2 3 4 5]))"
 NP == Len(Pool)
 
 RECURSIVE SubstT(_, _, _)
@@ -39,6 +51,7 @@ SubstT(s, i, t) == IF i > Len(s) THEN ""
 Prog(p, t) == ReadAll(SubstT(Pool[p], 1, ToString(t)))
 
 ASSUME InitRegisters
+ASSUME SetContext(ReadAll(SharedText))
 
 \* all strictly increasing index tuples of length SetSize... enumerated as SetSize independent indices with i1 < i2 < i3
 VARIABLES i1, i2, i3, ph
@@ -49,8 +62,8 @@ Init == /\ ph = 0 /\ i1 \in 1..NP /\ i2 \in 1..NP /\ i1 <= i2
 Next == /\ ph = 0 /\ ph' = 1 /\ UNCHANGED <<i1, i2, i3>>
         /\ LET idx == IF SetSize >= 3 THEN <<i1, i2, i3>> ELSE <<i1, i2>>
                progs == [k \in 1..Len(idx) |-> Prog(idx[k], k)]
-               outs == [k \in 1..Len(idx) |-> Outcome(Run(progs[k]), {})]
-               c == [kind |-> "concurrent", tag |-> "set", src |-> ToString(idx), progs |-> progs, allows |-> outs,
+               outs == [k \in 1..Len(idx) |-> Outcome(RunInCtx(progs[k]), {})]
+               c == [kind |-> "concurrent", tag |-> "set", shared |-> SharedText, src |-> ToString(idx), progs |-> progs, allows |-> outs,
                      texts |-> [k \in 1..Len(idx) |-> SubstT(Pool[idx[k]], 1, ToString(k))]]
            IN PrintT("CASE " \o ToJson(c))
 Spec == Init /\ [][Next]_vars
